@@ -65,8 +65,14 @@ func (p Parser) HandleRawSQLQuery(sql string) (normalizedQuery, redactedQuery st
 
 	normalizedQ := String(stmt)
 
+	if _, notParsed := stmt.(NotParsedStatement); notParsed {
+		// ModeDefault: the statement did not parse, so nothing in it can be redacted;
+		// its text must not be offered as the redacted form (callers log that form)
+		return normalizedQ, "", outputStmt, nil
+	}
+
 	// redact and mask VALUES
-	Normalize(stmt, bv, ValueMask)
+	Redact(stmt, bv, ValueMask)
 
 	return normalizedQ, String(stmt), outputStmt, nil
 }
@@ -101,7 +107,8 @@ func ParseWithDialect(dialect dialect.Dialect, sql string) (Statement, error) {
 	tokenizer := NewStringTokenizerWithDialect(dialect, sql)
 	if yyParse(tokenizer) != 0 {
 		if tokenizer.partialDDL != nil {
-			log.Printf("ignoring error parsing DDL '%s': %v", sql, tokenizer.LastError)
+			// the statement text is not logged: it did not parse and may carry literal values
+			log.Printf("ignoring error parsing DDL: %v", tokenizer.LastError)
 			tokenizer.ParseTree = tokenizer.partialDDL
 			return tokenizer.ParseTree, nil
 		}
@@ -260,6 +267,8 @@ func (node *Union) walkSubtree(visit Visit) error {
 		visit,
 		node.Left,
 		node.Right,
+		node.OrderBy,
+		node.Limit,
 	)
 }
 
@@ -304,9 +313,11 @@ func (node *Insert) walkSubtree(visit Visit) error {
 		visit,
 		node.Comments,
 		node.Table,
+		node.Partitions,
 		node.Columns,
 		node.Rows,
 		node.OnDup,
+		node.Returning,
 	)
 }
 
@@ -331,9 +342,11 @@ func (node *Update) walkSubtree(visit Visit) error {
 		node.Comments,
 		node.TableExprs,
 		node.Exprs,
+		node.From,
 		node.Where,
 		node.OrderBy,
 		node.Limit,
+		node.Returning,
 	)
 }
 
@@ -360,11 +373,13 @@ func (node *Delete) walkSubtree(visit Visit) error {
 	return Walk(
 		visit,
 		node.Comments,
+		node.Targets,
 		node.TableExprs,
-		node.TableExprs,
+		node.Partitions,
 		node.Where,
 		node.OrderBy,
 		node.Limit,
+		node.Returning,
 	)
 }
 
@@ -460,6 +475,10 @@ func (node *DDL) walkSubtree(visit Visit) error {
 		visit,
 		node.Table,
 		node.NewName,
+		node.TableSpec,
+		node.PartitionSpec,
+		node.VindexSpec,
+		Columns(node.VindexCols),
 	)
 }
 
@@ -636,6 +655,27 @@ func (ct *ColumnType) Format(buf *TrackedBuffer) {
 }
 
 func (ct *ColumnType) walkSubtree(visit Visit) error {
+	if ct == nil {
+		return nil
+	}
+	if err := Walk(visit, ct.NotNull, ct.Autoincrement, ct.Unsigned, ct.Zerofill); err != nil {
+		return err
+	}
+	// Length and Scale are parameters of the type (varchar(20)), not values
+	return walkValues(visit, ct.Default, ct.OnUpdate, ct.Comment)
+}
+
+// walkValues visits optional literal children. A nil *SQLVal stored in the SQLNode interface is not a nil
+// interface (Walk would hand it to visit functions that dereference it), so nil pointers are skipped here.
+func walkValues(visit Visit, vals ...*SQLVal) error {
+	for _, val := range vals {
+		if val == nil {
+			continue
+		}
+		if err := Walk(visit, val); err != nil {
+			return err
+		}
+	}
 	return nil
 }
 
@@ -667,6 +707,12 @@ func (idx *IndexDefinition) Format(buf *TrackedBuffer) {
 func (idx *IndexDefinition) walkSubtree(visit Visit) error {
 	if idx == nil {
 		return nil
+	}
+
+	if idx.Info != nil {
+		if err := Walk(visit, idx.Info); err != nil {
+			return err
+		}
 	}
 
 	for _, n := range idx.Columns {
@@ -710,8 +756,12 @@ func (node *VindexSpec) Format(buf *TrackedBuffer) {
 }
 
 func (node *VindexSpec) walkSubtree(visit Visit) error {
+	if node == nil {
+		return nil
+	}
 	err := Walk(visit,
 		node.Name,
+		node.Type,
 	)
 
 	if err != nil {
@@ -769,6 +819,15 @@ func (node *Show) Format(buf *TrackedBuffer) {
 }
 
 func (node *Show) walkSubtree(visit Visit) error {
+	if node == nil {
+		return nil
+	}
+	if err := Walk(visit, node.OnTable); err != nil {
+		return err
+	}
+	if node.ShowTablesOpt != nil && node.ShowTablesOpt.Filter != nil {
+		return Walk(visit, node.ShowTablesOpt.Filter)
+	}
 	return nil
 }
 
@@ -782,7 +841,10 @@ func (node *ShowFilter) Format(buf *TrackedBuffer) {
 }
 
 func (node *ShowFilter) walkSubtree(visit Visit) error {
-	return nil
+	if node == nil {
+		return nil
+	}
+	return Walk(visit, node.Filter)
 }
 
 // Format formats the node.
@@ -875,7 +937,7 @@ func (node *Execute) Format(buf *TrackedBuffer) {
 }
 
 func (node *Execute) walkSubtree(visit Visit) error {
-	return Walk(visit, node.Using, node.PreparedStatementName)
+	return Walk(visit, node.Values, node.Using, node.PreparedStatementName)
 }
 
 // Format formats the node.
@@ -1061,6 +1123,7 @@ func (node *AliasedTableExpr) walkSubtree(visit Visit) error {
 	return Walk(
 		visit,
 		node.Expr,
+		node.Partitions,
 		node.As,
 		node.Hints,
 	)
@@ -1381,7 +1444,11 @@ func (node *SQLVal) Format(buf *TrackedBuffer) {
 }
 
 func (node *SQLVal) walkSubtree(visit Visit) error {
-	return nil
+	if node == nil {
+		return nil
+	}
+	// the operand of a cast of a non-literal expression ((a || 'x')::text)
+	return Walk(visit, node.unknown)
 }
 
 // Format formats the node.
@@ -1655,6 +1722,7 @@ func (node *ConvertType) Format(buf *TrackedBuffer) {
 }
 
 func (node *ConvertType) walkSubtree(visit Visit) error {
+	// Length and Scale are parameters of the type (char(10)), not values
 	return nil
 }
 
